@@ -57,8 +57,10 @@ static bool eq_key(const void *a, const void *b) {
     return x->id == y->id;
 }
 static void destroy_key(void *p) { ((Key *)p)->destroyed++; }
+static int g_null_val_destroyed = 0; // value-destructor calls for entries that hold a NULL value
 static void destroy_val(void *p) {
     if (p) ((Val *)p)->destroyed++; // entries may hold a NULL value (a cache used as a bounded set)
+    else g_null_val_destroyed++;
 }
 
 enum { FIFO, LIFO, LRU };
@@ -137,9 +139,12 @@ static void run(const Case &c, Ctx &ctx) {
         default: return (uint32_t)(x % U);
         }
     };
+    int null_val_expect = 0;
+    g_null_val_destroyed = 0;
     auto displaced = [&](const Entry &e, bool key_too) {
         if (kd && key_too) e.key->expect++;
         if (vd && e.val) e.val->expect++;
+        if (vd && !e.val) null_val_expect++; // "destructors run exactly once per displaced entry": also when the value is NULL
     };
     auto note_touch = [&](int at, const char *tagname) {
         if (at >= 0 && at == victim_index() && model.size() == cap) {
@@ -187,6 +192,8 @@ static void run(const Case &c, Ctx &ctx) {
         for (auto &v : vals)
             PBT_CHECK(v->destroyed == v->expect, "after %s: value #%u destroyed %d time(s), expected %d", after, v->serial,
                       v->destroyed, v->expect);
+        PBT_CHECK(g_null_val_destroyed == null_val_expect, "after %s: the value destructor ran %d time(s) for entries with a NULL value, %d such entries were displaced",
+                  after, g_null_val_destroyed, null_val_expect);
         const char *m = nullptr;
         PBT_CHECK(galloc::check_all(&m), "%s", m ? m : "");
     };
@@ -341,6 +348,8 @@ static void run(const Case &c, Ctx &ctx) {
     for (auto &v : vals)
         PBT_CHECK(v->destroyed == v->expect, "after destroy: value #%u destroyed %d time(s), expected %d", v->serial, v->destroyed,
                   v->expect);
+    PBT_CHECK(g_null_val_destroyed == null_val_expect, "after destroy: the value destructor ran %d time(s) for entries with a NULL value, %d such entries were displaced",
+              g_null_val_destroyed, null_val_expect);
     const char *m = nullptr;
     PBT_CHECK(galloc::check_all(&m), "%s", m ? m : "");
     PBT_CHECK(galloc::live_blocks() == 0, "destroy left %zu allocator blocks", galloc::live_blocks());
